@@ -1265,6 +1265,14 @@ def c01(sc, V):
                         continue
                 except ValueError:
                     continue
+                # converged means: every listed worker is alive (a dead one is replaced by this check, and a spawn hook that
+                # says no then stops the whole watcher, young workers included — thorough seed 0 of session 5); spawn hooks
+                # are outside the configurations C01 quantifies over anyway
+                if not all(alive(s.before.kernel.get(p[0], ("g", 0))[0]) for p in wb["procs"]):
+                    continue
+                if any(h in (cfgm.get("hooks") or {}) for h in ("before_spawn", "after_spawn")) or \
+                        any(x.cmd() == "set" and "hooks" in json.dumps(x.op[1].get("properties", {})) for x in V[:s.n] if x.kind() == "req" and isinstance(x.op[1], dict)):
+                    continue
                 st_times = spawn_times(sc, V[:s.n + 1])
                 for l in s.lines:
                     if l[0] == "sig" and l[2] != 0 and any(p[0] == l[1] for p in wb["procs"]) and l[1] in st_times and \
